@@ -1118,6 +1118,9 @@ class Printer:
                 return ("const", not pol)
             if self._never_none(l):
                 return ("const", not pol)
+            if self._table_get(l):
+                # TABLE.get(k) is None  <=>  k not in TABLE      (a module-level table holds no None)
+                return self._bool(ast.Compare(left=l.args[0], ops=[ast.In()], comparators=[l.func.value]), not pol)  # type: ignore[attr-defined]
         return ("lit", self._show(e, atom=True), pol)
 
     def resolve_under(self, expr: ast.AST, cb) -> ast.AST:
@@ -1163,6 +1166,22 @@ class Printer:
             import re as _re
             memo[attr] = bool(anns) and all(_re.fullmatch(r"(Optional\[)?(list|tuple|List|Tuple)\[int(, (int|\.\.\.))*\]\]?( \| None)?", a) for a in anns)
         return memo[attr]
+
+    def _table_get(self, e: ast.AST) -> bool:
+        """`TABLE.get(k)` (one argument) on a module-level dict of the package"""
+        m = self.model
+        if m is None or not (isinstance(e, ast.Call) and isinstance(e.func, ast.Attribute) and e.func.attr == "get" and len(e.args) == 1 and not e.keywords
+                             and isinstance(e.func.value, ast.Name)):
+            return False
+        name = e.func.value.id
+        if name in self.params:
+            return False
+        memo = m.__dict__.setdefault("_symflow_tables", {})
+        if name not in memo:
+            vals = [mod.assigns[name] for mod in m.modules.values() if name in mod.assigns]
+            memo[name] = bool(vals) and all(isinstance(v, (ast.Dict, ast.DictComp)) or (isinstance(v, ast.Call) and isinstance(v.func, ast.Name) and v.func.id == "dict")
+                                            for v in vals)
+        return memo[name]
 
     def _leaf_class(self, name: str) -> bool:
         """A class of the package without subclasses: `type(x) is C` and `isinstance(x, C)` coincide."""
@@ -1374,6 +1393,9 @@ class Printer:
             return self.aliases.get(s, s)
         if isinstance(e, ast.Slice):
             return f"{sh(e.lower) if e.lower else ''}:{sh(e.upper) if e.upper else ''}" + (f":{sh(e.step)}" if e.step else "")
+        if self.canonical and self._table_get(e):
+            # the value of TABLE.get(k) where it is used (its absence is a condition: see _bool) is TABLE[k]
+            return f"{sh(e.func.value)}[{sh(e.args[0])}]"  # type: ignore[attr-defined]
         if isinstance(e, ast.Call):
             if isinstance(e.func, ast.Name) and e.func.id in ("any", "all") and len(e.args) == 1 and not e.keywords \
                     and isinstance(e.args[0], (ast.GeneratorExp, ast.ListComp)):
